@@ -23,7 +23,7 @@ type c19Result struct {
 
 func c19ArbResult(prefix string) c19Result {
 	var r c19Result
-	n := vrt.Int(prefix+"nout", 0, 2)
+	n := vrt.Int(prefix+"nout", 0, vrt.Bound("maxout", 2))
 	for i := 0; i < n; i++ {
 		r.outs = append(r.outs, message.NewMessage("o", nil))
 	}
@@ -289,7 +289,7 @@ func HarnessC19WithRetry() {
 	kind := vrt.Int("kind", 0, mwCount-1)
 	vrt.Assume(kind != mwIgnoreOther || true)
 	inside := vrt.Bool("inside") // true: Retry(X(h)); false: X(Retry(h))
-	fails := vrt.Int("fails", 0, 3)
+	fails := vrt.Int("fails", 0, vrt.Bound("maxfails", 3))
 	r := Retry{MaxRetries: 2, InitialInterval: time.Millisecond, MaxInterval: 4 * time.Millisecond, Multiplier: 2}
 
 	bare := 0
